@@ -26,9 +26,44 @@ def neq_term(a, b):
 def show(cfg):
     sh = cfg["shape"]
     s = f"{'signed' if sh[1] else 'unsigned'}({sh[0]})" if cfg.get("array") is None else f"ArrayLayout({cfg['array'][0]},{cfg['array'][1]})"
+    if cfg.get("struct"):
+        s = "Struct{tag: unsigned(2) = 1, delta: signed(2) = -1}"
     wp = ", ".join(f"W{i}[{p['domain']},gran={p['gran']}]" for i, p in enumerate(cfg["wports"]))
     rp = ", ".join(f"R{i}[{p['domain']},transp={p['transparent']}]" for i, p in enumerate(cfg["rports"]))
-    return f"Memory(shape={s}, depth={cfg['depth']}, init={cfg['init']}); {wp}; {rp}"
+    rs = "; resets " + ", ".join(f"{d}:{k}" for d, k in sorted(cfg["reset"].items())) if cfg.get("reset") else ""
+    return f"Memory(shape={s}, depth={cfg['depth']}, init={cfg['init']}); {wp}; {rp}{rs}"
+
+
+_ENTRY = []
+ENTRY_DEFAULT = 0b1101        # tag = 1, delta = -1
+
+
+def entry_struct():
+    """A row shape whose default (shape.const(None)) is not the all-zero pattern."""
+    if not _ENTRY:
+        from amaranth.lib import data
+        from amaranth.hdl import unsigned, signed
+
+        class Entry(data.Struct):
+            tag: unsigned(2) = 1
+            delta: signed(2) = -1
+        _ENTRY.append(Entry)
+    return _ENTRY[0]
+
+
+def expected_initial_rows(cfg):
+    """Declared contents: explicit rows in the row shape, the rest the shape's default."""
+    w, sg = cfg["shape"]
+    out = []
+    for i in range(cfg["depth"]):
+        if i < len(cfg["init"]):
+            v = cfg["init"][i] & ((1 << w) - 1) if w else 0
+        else:
+            v = ENTRY_DEFAULT if cfg.get("struct") else 0
+        if sg and w and (v >> (w - 1)) & 1:
+            v -= 1 << w
+        out.append(v)
+    return out
 
 
 def build(cfg):
@@ -40,9 +75,13 @@ def build(cfg):
     for p in cfg["wports"] + cfg["rports"]:
         d = p["domain"]
         if d != "comb" and d not in doms:
-            doms[d] = ClockDomain(d, reset_less=True)
+            kind = (cfg.get("reset") or {}).get(d)
+            doms[d] = ClockDomain(d, reset_less=kind is None, async_reset=kind == "async")
             m.domains += doms[d]
-    if cfg.get("array") is not None:
+    if cfg.get("struct"):
+        shape = entry_struct()
+        init = [{"tag": v & 3, "delta": ((v >> 2) & 3) - (4 if (v >> 3) & 1 else 0)} for v in cfg["init"]]
+    elif cfg.get("array") is not None:
         shape = data.ArrayLayout(cfg["array"][0], cfg["array"][1])
         init = [[(v >> (k * cfg["array"][0])) & ((1 << cfg["array"][0]) - 1) for k in range(cfg["array"][1])] for v in cfg["init"]]
     else:
@@ -123,6 +162,10 @@ def event_sets(cfg):
     out = [[d] for d in doms]
     if len(doms) > 1:
         out.append(doms)
+    # the rising edge of an asynchronous reset without any clock edge: "!<domain>" (a memory and its read ports have no reset)
+    for d in doms:
+        if (cfg.get("reset") or {}).get(d) == "async":
+            out.append(["!" + d])
     return out
 
 
@@ -156,9 +199,12 @@ def concrete_run(cfg, rows, ins, rdata, event):
                 if cfg["rports"][qi]["domain"] != "comb":
                     ctx.set(rp.en, en)
             out["comb_before"] = [_as_int(ctx.get(rp.data)) for rp in rps]
+            for d_, dom_ in doms.items():
+                if dom_.rst is not None:
+                    ctx.set(dom_.rst, ins.get("rst", {}).get(d_, 0))
             if event:
                 from amaranth.hdl import Cat
-                clks = [doms[d].clk for d in event]
+                clks = [doms[d].clk if not d.startswith("!") else doms[d[1:]].rst for d in event]
                 ctx.set(Cat(*clks), (1 << len(clks)) - 1)
             out["rows"] = [_as_int(ctx.get(mem.data[i])) for i in range(cfg["depth"])]
             out["rdata"] = [_as_int(ctx.get(rp.data)) for rp in rps]
@@ -188,7 +234,7 @@ def oracle_concrete(cfg, rows, ins, rdata, event):
         a, en = ins["r"][qi]
         comb.append(o.read(rows, a) if q["domain"] == "comb" else rdata[qi])
     out["comb_before"] = comb
-    nr, nd = o.edge(rows, rdata, ins["w"], ins["r"], set(event))
+    nr, nd = o.edge(rows, rdata, ins["w"], ins["r"], {d for d in event if not d.startswith("!")})
     for qi, q in enumerate(cfg["rports"]):
         if q["domain"] == "comb":
             nd[qi] = o.read(nr, ins["r"][qi][0])
@@ -223,10 +269,24 @@ def check_config(job):
     o = Oracle(cfg)
     depth = cfg["depth"]
     out = []
+    # declared initial contents (concrete): storage, testbench view and a comb read port at time zero
+    sim.reset()
+    ms0 = sim.mem_slot(mem.data)
+    want0 = expected_initial_rows(cfg)
+    got0 = [ms0.data[i] for i in range(depth)]
+    tb0 = [sim.engine.get_value(mem.data[i].as_value() if hasattr(mem.data[i], "as_value") else mem.data[i]) for i in range(depth)]
+    r0 = dict(base, kind="initial contents", nontrivial=False, assertion="after reset every row holds its declared initial value; rows not given hold the row shape's default")
+    if got0 != want0 or tb0 != want0:
+        out.append(dict(r0, status=VIOLATION, detail=f"{text}: storage {got0}, testbench view {tb0}, declared {want0}", signature={"kind": "initial"},
+                        replay={"cfg": cfg, "initial": True}))
+    else:
+        out.append(dict(r0, status=PROVED))
     for event in [[]] + event_sets(cfg):
         kind = "comb-read+row-access" if not event else "edge:" + "+".join(event)
         res = dict(base, kind=kind, status=PROVED, detail="", cex=None,
                    assertion="rows, sync read data and async read data after the event == array-of-rows model")
+
+        rst_vals = {}
 
         def scenario():
             sim.reset()
@@ -237,10 +297,15 @@ def check_config(job):
             rins = [(sim.value(p.addr), sim.value(p.en) if cfg["rports"][i]["domain"] != "comb" else 1) for i, p in enumerate(rps)]
             rd = lambda p: sim.value(p.data.as_value() if hasattr(p.data, "as_value") else p.data)
             rdata0 = [rd(p) for p in rps]
+            rst_vals.clear()
+            rst_vals.update({d_: sim.value(dm.rst) for d_, dm in doms.items() if dm.rst is not None})
+            for d_ in event:
+                if d_.startswith("!"):
+                    sim.poke(doms[d_[1:]].rst, 0)
             sim.settle()
             comb_before = [rd(p) for p in rps]
             if event:
-                sim.edge(*[(doms[d].clk, 1) for d in event])
+                sim.edge(*[((doms[d].clk, 1) if not d.startswith("!") else (doms[d[1:]].rst, 1)) for d in event])
             rows1 = list(ms.data)
             rdata1 = [rd(p) for p in rps]
             # testbench view of the rows (real eval_value on MemoryData._Row)
@@ -271,7 +336,7 @@ def check_config(job):
                     for pi, pw in enumerate(cfg["wports"]):
                         if q["domain"] != "comb" and pw["domain"] != q["domain"]:
                             assume.append(bool_term(sym_not(sym_and(rins[qi][0] == wins[pi][0], wins[pi][2] != 0))))
-            want_rows, want_rdata = o.edge(rows, rdata0, wins, rins, set(event))
+            want_rows, want_rdata = o.edge(rows, rdata0, wins, rins, {d for d in event if not d.startswith("!")})
             diffs = []
             for i in range(depth):
                 for got in (rows1[i], tb_rows[i]):
@@ -310,7 +375,8 @@ def check_config(job):
                 mdl = s.model()
                 ev = lambda x: eval_in_model(mdl, x)
                 crow = [ev(x) for x in rows]
-                cins = {"w": [tuple(ev(x) for x in t) for t in wins], "r": [tuple(ev(x) for x in t) for t in rins]}
+                cins = {"w": [tuple(ev(x) for x in t) for t in wins], "r": [tuple(ev(x) for x in t) for t in rins],
+                        "rst": {d_: (0 if ("!" + d_) in event else ev(v_)) for d_, v_ in rst_vals.items()}}
                 crd = [ev(x) for x in rdata0]
                 real = concrete_run(cfg, crow, cins, crd, event)
                 want = oracle_concrete(cfg, crow, cins, crd, event)
@@ -403,6 +469,11 @@ def configs(tier, seed):
         {"shape": (4, True), "depth": 2, "init": [-8, 7], "wports": [], "rports": [{"domain": "sync", "transparent": []}, {"domain": "comb", "transparent": []}]},
         {"shape": (3, False), "depth": 3, "init": [], "wports": [{"domain": "sync", "gran": 1}, {"domain": "sync", "gran": 3}], "rports": []},
     ]
+    corner += [{"shape": (4, False), "struct": True, "depth": 4, "init": [0b0110], "wports": [{"domain": "sync", "gran": None}],
+                "rports": [{"domain": "sync", "transparent": [0]}, {"domain": "comb", "transparent": []}]},
+               {"shape": (4, False), "struct": True, "depth": 2, "init": [], "wports": [], "rports": [{"domain": "comb", "transparent": []}]}]
+    corner += [dict(corner[0], reset={"sync": "sync"}), dict(corner[0], reset={"sync": "async"}), dict(corner[2], reset={"sync": "async"}),
+               dict(corner[6], reset={"wr": "async", "rd": "sync"}), dict(corner[1], reset={"sync": "async"})]
     out.extend(corner)
     n = 110 if tier == "quick" else 2500
     for _ in range(n):
@@ -430,6 +501,8 @@ def configs(tier, seed):
             tr = [i for i, p in enumerate(wports) if p["domain"] == d and r.random() < 0.5] if d != "comb" else []
             rports.append({"domain": d, "transparent": tr})
         cfg = {"shape": (w, sg), "depth": depth, "init": init, "wports": wports, "rports": rports}
+        if r.random() < 0.3:
+            cfg["reset"] = {d: r.choice(["sync", "async"]) for d in doms if r.random() < 0.8}
         if arr is not None:
             cfg["array"] = arr
         out.append(cfg)
@@ -446,6 +519,22 @@ def replay(path):
     if r.get("hstate"):
         from vlib import hstate_proof
         return hstate_proof.replay(r)
+    if r.get("initial"):
+        with symsim.real_states():
+            from amaranth.sim import Simulator
+            m_, mem_, _, _, _ = build(cfg)
+            sim_ = Simulator(m_)
+            got = []
+
+            async def tb(ctx):
+                for i in range(cfg["depth"]):
+                    got.append(_as_int(ctx.get(mem_.data[i])))
+            sim_.add_testbench(tb)
+            sim_.run()
+        want = [v & ((1 << cfg["shape"][0]) - 1) for v in expected_initial_rows(cfg)]
+        got = [v & ((1 << cfg["shape"][0]) - 1) if isinstance(v, int) else v for v in got]
+        print(show(cfg), "rows at time zero", got, "declared", want)
+        return 1 if got != want else 0
     if r.get("construct"):
         from amaranth.sim import Simulator
         try:
@@ -456,7 +545,7 @@ def replay(path):
             return 1
         print("constructs fine")
         return 0
-    ins = {"w": [tuple(t) for t in r["ins"]["w"]], "r": [tuple(t) for t in r["ins"]["r"]]}
+    ins = {"w": [tuple(t) for t in r["ins"]["w"]], "r": [tuple(t) for t in r["ins"]["r"]], "rst": r["ins"].get("rst", {})}
     real = concrete_run(cfg, r["rows"], ins, r["rdata"], r["event"])
     want = oracle_concrete(cfg, r["rows"], ins, r["rdata"], r["event"])
     print(show(cfg))
